@@ -180,7 +180,25 @@ pub fn run(sc: &Value) -> Value {
                 Value::Null
             }
             "diff" => {
-                let (m, ord) = weights_of(&op["weights"]);
+                // weights given literally, plus optionally weights placed relative to the current state: for
+                // ["sym", factor] the weight is chosen so that the gap (target value - current value) is
+                // factor x price (ask for factor > 0, bid otherwise) — boundary probing around one share
+                let mut wv: Vec<Value> = arr(&op["weights"]).clone();
+                if let Some(rel) = op.get("rel_weights").and_then(|x| x.as_array()) {
+                    let total = b.get_liquidation_value();
+                    for rw in rel {
+                        let sym = s(&rw[0]);
+                        let f = bf(&rw[1]);
+                        if let Some(q) = b.get_quote(&sym) {
+                            let px = if f > 0.0 { q.ask } else { q.bid };
+                            let curr = b.get_position_value(&sym).unwrap_or(0.0);
+                            let w = (curr + f * px) / total;
+                            wv.retain(|x| s(&x[0]) != sym);
+                            wv.push(json!([sym, fb(w)]));
+                        }
+                    }
+                }
+                let (m, ord) = weights_of(&Value::Array(wv));
                 let orders = b.diff_brkr_against_target_weights(&m);
                 json!({"orders": orders.iter().map(uist_order_json).collect::<Vec<_>>(), "weights_order": ord})
             }
